@@ -290,14 +290,13 @@ Section Tests.
     rewrite andb_true_r in H. destruct x, k; try discriminate; reflexivity.
   Qed.
 
-  (* the definition of a test that takes one test / a test list, from the table condition *)
-  Lemma test_def_facts : forall d a,
-    twf d = true -> d_type d = CTest -> d_args d = [a] -> (is_t1 a = true \/ is_tl a = true) ->
+  (* the single slot of a command that takes one test / a test list, from the table condition *)
+  Lemma slot_facts : forall d a,
+    twf d = true -> d_args d = [a] -> (is_t1 a = true \/ is_tl a = true) ->
     a_required a = true /\ has_vals a = false /\ a_extra a = None /\ has_test_slot d = true /\
-    (is_t1 a = true -> d_variable_args_nb d = false /\ d_expected_first d = Some [TIdentifier]) /\
-    (is_tl a = true -> d_variable_args_nb d = true /\ d_expected_first d = Some [TLeftParen]).
+    (is_t1 a = true -> d_variable_args_nb d = false) /\ (is_tl a = true -> d_variable_args_nb d = true).
   Proof.
-    intros d a Htw Hty Ha Hk.
+    intros d a Htw Ha Hk.
     assert (Hslot : slot_is_test a = true).
     { destruct Hk as [Hk|Hk]; [|apply is_tl_slot_test; exact Hk].
       unfold is_t1 in Hk. unfold slot_is_test. destruct (a_type a) as [|[] [|y l]]; try discriminate. reflexivity. }
@@ -309,28 +308,41 @@ Section Tests.
     { unfold slot_val_ok in Hso. repeat (apply andb_true_iff in Hso; destruct Hso as [Hso ?]).
       rewrite Hreq in *. destruct (a_extra a); [discriminate|reflexivity]. }
     split; [exact Hreq|]. split; [exact Hnv|]. split; [exact Hnoex|]. split; [exact Hts|].
+    split; intro Hx; destruct Hkind as [(K1 & K2)|(K1 & K2 & _)]; auto;
+      exfalso; unfold is_t1, is_tl in *; destruct (a_type a) as [|[] [|y l]]; discriminate.
+  Qed.
+
+  Lemma test_def_facts : forall d a,
+    twf d = true -> d_type d = CTest -> d_args d = [a] -> (is_t1 a = true \/ is_tl a = true) ->
+    a_required a = true /\ has_vals a = false /\ a_extra a = None /\ has_test_slot d = true /\
+    (is_t1 a = true -> d_variable_args_nb d = false /\ d_expected_first d = Some [TIdentifier]) /\
+    (is_tl a = true -> d_variable_args_nb d = true /\ d_expected_first d = Some [TLeftParen]).
+  Proof.
+    intros d a Htw Hty Ha Hk.
+    destruct (slot_facts d a Htw Ha Hk) as (Hreq & Hnv & Hnoex & Hts & Hv1 & Hv2).
+    split; [exact Hreq|]. split; [exact Hnv|]. split; [exact Hnoex|]. split; [exact Hts|].
     unfold twf in Htw. rewrite Hts, Ha, Hty in Htw.
     repeat match goal with K : (_ && _)%bool = true |- _ => apply andb_true_iff in K; destruct K end.
     match goal with K : (_ || _)%bool = true |- _ => apply orb_true_iff in K; destruct K as [K|K] end;
       repeat match goal with K : (_ && _)%bool = true |- _ => apply andb_true_iff in K; destruct K end.
     - split.
-      + intros _. split; [apply negb_true_iff; assumption|apply kinds_eqb_single; assumption].
+      + intros Hx. split; [apply Hv1; exact Hx|apply kinds_eqb_single; assumption].
       + intro Htl. exfalso. unfold is_t1, is_tl in *. destruct (a_type a) as [|[] [|y l]]; discriminate.
     - split.
       + intro Ht1. exfalso. unfold is_t1, is_tl in *. destruct (a_type a) as [|[] [|y l]]; discriminate.
-      + intros _. split; [assumption|apply kinds_eqb_single; assumption].
+      + intros Hx. split; [apply Hv2; exact Hx|apply kinds_eqb_single; assumption].
   Qed.
 
   (* a fresh frame of a one-test command takes the test and is complete afterwards *)
   Lemma cna_t1_new : forall d at_ a,
-    twf d = true -> d_type d = CTest -> d_args d = [a] -> is_t1 a = true ->
+    twf d = true -> d_args d = [a] -> is_t1 a = true ->
     exists N1, check_next_arg (new_frame d at_) TyTest placeholder true true L = CnaOk N1 (Some a) /\
                iscomplete N1 None = true /\ f_def N1 = d /\ f_attach N1 = at_ /\
                f_args N1 = [(a_name a, placeholder)] /\ f_extra N1 = [] /\ f_children N1 = [] /\ fi N1.
   Proof.
-    intros d at_ a Htw Hty Ha Ht1.
-    destruct (test_def_facts d a Htw Hty Ha (or_introl Ht1)) as (Hreq & Hnv & Hnoex & Hts & Hv1 & _).
-    destruct (Hv1 Ht1) as (Hnvar & _).
+    intros d at_ a Htw Ha Ht1.
+    destruct (slot_facts d a Htw Ha (or_introl Ht1)) as (Hreq & Hnv & Hnoex & Hts & Hv1 & _).
+    pose proof (Hv1 Ht1) as Hnvar.
     set (N := mkFrame d [] [] [] 0 0 None at_).
     change (new_frame d at_) with N.
     assert (Hfi : fi N) by (apply (fi_new_frame d at_); exact Htw).
@@ -441,7 +453,7 @@ Section Tests.
     set (N := new_frame d (at_of ca)).
     set (stN := with_stack (N :: P1 :: rest) (with_expected (d_expected_first d) st)).
     pose proof (push_test st P rest P1 ca name d Es Hc Hp Hl E Hg Hty) as P0. fold N in P0. fold stN in P0.
-    destruct (cna_t1_new d (at_of ca) a Htw Hty Ha Ht1) as (N1 & EN & HcN1 & HdN1 & HaN1 & HargsN1 & HexN1 & HchN1 & HfN1).
+    destruct (cna_t1_new d (at_of ca) a Htw Ha Ht1) as (N1 & EN & HcN1 & HdN1 & HaN1 & HargsN1 & HexN1 & HchN1 & HfN1).
     fold N in EN.
     assert (HfN : fi N) by (apply fi_new_frame; exact Htw).
     assert (Hinc : iscomplete N None = false) by (apply (cna_ok_incomplete _ _ _ _ _ _ _ _ EN)).
@@ -666,3 +678,558 @@ Section Tests.
   Qed.
 
 End Tests.
+
+(* ====================================================================================== *)
+(* Part 3: commands and blocks                                                             *)
+(* ====================================================================================== *)
+
+(* commands: `name args ;`, `name test { commands }` (if / elsif / anything with one test and a block) and
+   `name { commands }` (else) *)
+Inductive gcmd :=
+| GAct (name : bytes) (args : list argument)
+| GCtl (name : bytes) (t : gtest) (body : list gcmd)
+| GElse (name : bytes) (body : list gcmd).
+
+Definition tk_semi := mk TSemicolon [59%N].
+Definition tk_lcb := mk TLeftCBracket [123%N].
+Definition tk_rcb := mk TRightCBracket [125%N].
+
+Fixpoint toks_cmd (c : gcmd) : list token :=
+  match c with
+  | GAct name args => mk TIdentifier name :: flat_map arg_toks args ++ [tk_semi]
+  | GCtl name t body => mk TIdentifier name :: toks_test t ++ tk_lcb :: flat_map toks_cmd body ++ [tk_rcb]
+  | GElse name body => mk TIdentifier name :: tk_lcb :: flat_map toks_cmd body ++ [tk_rcb]
+  end.
+
+(* where a finished command goes: the result list (top level, with the pending hash comments) or the
+   children of the command that owns the block *)
+Definition with_comments (n : node) (h : list bytes) : node :=
+  Node (node_def n) (node_args n) (node_extra n) (node_children n) h.
+
+Definition add_child (o : frame) (n : node) : frame :=
+  mkFrame (f_def o) (f_args o) (f_extra o) (f_children o ++ [n]) (f_nextargpos o) (f_rargs o) (f_curarg o) (f_attach o).
+
+Definition place := (list frame * list bytes * list node)%type.
+
+Definition emit1 (p : place) (n : node) : place :=
+  let '(S0, h, res) := p in
+  match S0 with
+  | [] => ([], [], res ++ [with_comments n h])
+  | o :: r0 => (add_child o n :: r0, h, res)
+  end.
+
+Definition place_of (st : pstate) : place := (p_stack st, p_hash st, p_result st).
+
+Definition owner_ok (S0 : list frame) : Prop :=
+  match S0 with [] => True | o :: _ => d_accept_children (f_def o) = true /\ is_test o = false end.
+
+Definition prev_name (p : place) : option bytes :=
+  let '(S0, _, res) := p in
+  option_map (fun n => d_name (node_def n))
+             (match S0 with [] => last_opt res | o :: _ => last_opt (f_children o) end).
+
+Definition follows_name (d : cmddef) (prev : option bytes) : bool :=
+  match d_must_follow d with
+  | None => true
+  | Some mf => match prev with None => false | Some p => mem p mf end
+  end.
+
+Definition at_in (S0 : list frame) : attach := match S0 with [] => AtTop | _ => AtChild end.
+
+Lemma last_opt_snoc : forall A (l : list A) x, last_opt (l ++ [x]) = Some x.
+Proof.
+  induction l as [|y l IH]; intro x; [reflexivity|].
+  cbn [app]. specialize (IH x). destruct (l ++ [x]) eqn:E; [destruct l; discriminate|]. exact IH.
+Qed.
+
+Lemma emit1_facts : forall p n,
+  owner_ok (fst (fst p)) ->
+  owner_ok (fst (fst (emit1 p n))) /\ prev_name (emit1 p n) = Some (d_name (node_def n)).
+Proof.
+  intros [[[|o r0] h] res] n Ho; cbn.
+  - split; [exact I|]. rewrite last_opt_snoc. reflexivity.
+  - split; [exact Ho|]. rewrite last_opt_snoc. reflexivity.
+Qed.
+
+(* __up on a finished non-test command: one node emitted, nothing else changes *)
+Lemma up_close : forall st cur S0,
+  p_stack st = cur :: S0 -> owner_ok S0 -> f_attach cur = at_in S0 ->
+  follows_name (f_def cur) (prev_name (S0, p_hash st, p_result st)) = true ->
+  exists st', up st = MTrue st' /\ p_cstate st' = p_cstate st /\ p_expected st' = p_expected st /\
+              p_brackets st' = p_brackets st /\ p_loaded st' = p_loaded st /\
+              place_of st' = emit1 (S0, p_hash st, p_result st) (frame_node cur []).
+Proof.
+  intros st cur S0 Es Ho Hat Hf. unfold up. rewrite Es.
+  assert (Hfo : match d_must_follow (f_def cur) with
+                | None => true
+                | Some mf => match (match S0 with [] => last_opt (p_result st) | parent :: _ => last_opt (f_children parent) end) with
+                             | None => false
+                             | Some n => mem (d_name (node_def n)) mf
+                             end
+                end = true).
+  { unfold follows_name, prev_name in Hf. destruct (d_must_follow (f_def cur)); [|reflexivity].
+    destruct S0 as [|o r0].
+    - destruct (last_opt (p_result st)); exact Hf.
+    - destruct (last_opt (f_children o)); exact Hf. }
+  rewrite Hfo. cbn [negb].
+  destruct S0 as [|o r0].
+  - eexists. split; [reflexivity|]. pcbn. repeat (split; [reflexivity|]). reflexivity.
+  - destruct Ho as (Ho1 & Ho2).
+    assert (Ha : attach_into cur o = add_child o (frame_node cur [])).
+    { unfold attach_into. rewrite Hat. reflexivity. }
+    rewrite Ha, up_loop_eq.
+    assert (Ht : is_test (add_child o (frame_node cur [])) = false) by exact Ho2.
+    rewrite Ht. cbn [andb].
+    eexists. split; [reflexivity|]. pcbn. repeat (split; [reflexivity|]). reflexivity.
+Qed.
+
+Lemma with_expected_id : forall st, p_expected st = None -> with_expected None st = st.
+Proof. intros [] H; cbn in *; subst; reflexivity. Qed.
+
+Lemma with_loaded_id : forall st, with_loaded (p_loaded st) st = st.
+Proof. intros []; reflexivity. Qed.
+
+Lemma process_passes : forall T st t,
+  t_kind t <> THashComment -> t_kind t <> TBracketComment -> passes (p_expected st) (t_kind t) ->
+  process T st t = m_command T (with_expected None st) t.
+Proof.
+  intros T st t H1 H2 Hp. unfold process.
+  destruct (p_expected st) as [l|] eqn:E.
+  - cbn in Hp. destruct (t_kind t); try congruence; rewrite Hp; reflexivity.
+  - rewrite (with_expected_id st E). destruct (t_kind t); try reflexivity; congruence.
+Qed.
+
+(* a complete command that cannot take a block: check_completion asks for ';' at most *)
+Lemma cc_leaf : forall st f rest ts,
+  p_stack st = f :: rest -> iscomplete f None = true -> is_test f = false -> d_accept_children (f_def f) = false ->
+  check_completion st ts = MTrue (if ts then with_expected (Some [TSemicolon]) st else st).
+Proof.
+  intros st f rest ts Es Hc Ht Hch. unfold check_completion. rewrite Es, Hc. cbn [negb].
+  assert (H : is_action f || (is_control f && negb (d_accept_children (f_def f))) = true).
+  { rewrite Hch. unfold is_action, is_control, is_test in *. destruct (d_type (f_def f)); try reflexivity; discriminate. }
+  rewrite H. reflexivity.
+Qed.
+
+(* ';' after a complete command that takes no block *)
+Lemma process_semicolon : forall T st f S0,
+  p_stack st = f :: S0 -> p_cstate st = CArgs -> passes (p_expected st) TSemicolon ->
+  is_test f = false -> d_accept_children (f_def f) = false ->
+  process T st tk_semi =
+  match complete_cb (with_cstate CNone (with_expected None st)) with
+  | MTrue st3 => up st3
+  | r => r
+  end.
+Proof.
+  intros T st f S0 Es Hc Hp Ht Hch.
+  rewrite process_passes by (cbn; congruence).
+  unfold m_command. pcbn. rewrite Hc. unfold m_arguments, m_argument, tk_semi, mk. cbn [t_kind]. pcbn. rewrite Es.
+  pcbn. rewrite Es, Ht, Hch. cbn [orb].
+  set (st3 := with_cstate CNone (with_expected None st)).
+  assert (Es3 : p_stack st3 = f :: S0) by (unfold st3; pcbn; exact Es).
+  rewrite (cc_semicolon st3 f S0 Es3 Ht Hch). reflexivity.
+Qed.
+
+(* '{' after a complete control that takes a block *)
+Lemma process_lcb : forall T st C S0,
+  p_stack st = C :: S0 -> p_cstate st = CArgs -> passes (p_expected st) TLeftCBracket ->
+  is_control C = true -> d_accept_children (f_def C) = true -> iscomplete C None = true ->
+  d_non_deterministic_args (f_def C) = false ->
+  process T st tk_lcb = MTrue (with_cstate CNone (with_brackets (BRCBracket :: p_brackets st) (with_expected None st))).
+Proof.
+  intros T st C S0 Es Hc Hp Hctl Hch Hcomp Hnd.
+  rewrite process_passes by (cbn; congruence).
+  unfold m_command. pcbn. rewrite Hc. unfold m_arguments, m_argument, tk_lcb, mk. cbn [t_kind]. pcbn. rewrite Es, Hnd.
+  pcbn. rewrite Es, Hctl, Hch, Hcomp. reflexivity.
+Qed.
+
+(* '}' between commands *)
+Lemma process_rcb : forall T st b,
+  p_cstate st = CNone -> p_expected st = None -> p_brackets st = BRCBracket :: b ->
+  process T st tk_rcb = match up (with_brackets b st) with MTrue st2 => MTrue (with_cstate CNone st2) | r => r end.
+Proof.
+  intros T st b Hc He Hb. unfold process, tk_rcb, mk. cbn [t_kind]. rewrite He. unfold m_command. rewrite Hc.
+  cbn [t_kind]. unfold pop_bracket. rewrite Hb. reflexivity.
+Qed.
+
+Fixpoint add_children (o : frame) (ns : list node) : frame :=
+  match ns with [] => o | n :: r => add_children (add_child o n) r end.
+
+Lemma fold_emit_nested : forall ns o r0 h res,
+  fold_left emit1 ns (o :: r0, h, res) = (add_children o ns :: r0, h, res).
+Proof. induction ns as [|n ns IH]; intros; cbn [fold_left add_children emit1]; [reflexivity|apply IH]. Qed.
+
+Lemma add_children_facts : forall ns o,
+  f_def (add_children o ns) = f_def o /\ f_args (add_children o ns) = f_args o /\
+  f_extra (add_children o ns) = f_extra o /\ f_children (add_children o ns) = f_children o ++ ns /\
+  f_attach (add_children o ns) = f_attach o.
+Proof.
+  induction ns as [|n ns IH]; intro o; cbn [add_children].
+  - rewrite app_nil_r. auto.
+  - destruct (IH (add_child o n)) as (A & B & C & D & E). cbn in *. rewrite <- app_assoc in D. auto.
+Qed.
+
+Section Cmds.
+  Variable T : tables.
+  Hypothesis HT : twf_tables T = true.
+
+  Definition ready (st : pstate) : Prop :=
+    p_cstate st = CNone /\ p_expected st = None /\ owner_ok (p_stack st).
+
+  (* the effect of a `require` (complete_cb) on the loaded extensions, as a relation *)
+  Definition cb_ok (d : cmddef) (am : list (bytes * aval)) (L L' : list bytes) : Prop :=
+    match d_complete d with
+    | HNone => L' = L
+    | HRequire =>
+        match assoc_get capabilities_key am with
+        | None => L' = L
+        | Some (VList l) => L' = load_exts l L
+        | Some (VStr s) => L' = load_exts [s] L
+        | Some _ => False
+        end
+    end.
+
+  Inductive wf_cmd : list bytes -> option bytes -> gcmd -> node -> list bytes -> Prop :=
+  | wf_act : forall L prev name d args am em L',
+      get_command_instance T L name = inl d -> d_type d <> CTest -> d_accept_children d = false ->
+      wf_def d = true -> fixed_arity d = true -> Forall arg_ok args ->
+      legal d L args = LComplete am em ->
+      follows_name d prev = true -> cb_ok d am L L' ->
+      wf_cmd L prev (GAct name args) (Node d am em [] []) L'
+  | wf_ctl : forall L prev name d a t nt body ns L',
+      get_command_instance T L name = inl d -> d_type d = CControl -> d_accept_children d = true ->
+      d_args d = [a] -> is_t1 a = true ->
+      follows_name d prev = true ->
+      wf_test T L t nt -> wf_cmds L None body ns L' ->
+      wf_cmd L prev (GCtl name t body) (Node d [(a_name a, VTest nt)] [] ns []) L'
+  | wf_else : forall L prev name d body ns L',
+      get_command_instance T L name = inl d -> d_type d = CControl -> d_accept_children d = true ->
+      d_args d = [] ->
+      follows_name d prev = true ->
+      wf_cmds L None body ns L' ->
+      wf_cmd L prev (GElse name body) (Node d [] [] ns []) L'
+  with wf_cmds : list bytes -> option bytes -> list gcmd -> list node -> list bytes -> Prop :=
+  | wf_nil : forall L prev, wf_cmds L prev [] [] L
+  | wf_cons : forall L prev c n L1 cs ns L2,
+      wf_cmd L prev c n L1 -> wf_cmds L1 (Some (d_name (node_def n))) cs ns L2 ->
+      wf_cmds L prev (c :: cs) (n :: ns) L2.
+
+  Scheme wf_cmd_mut := Minimality for wf_cmd Sort Prop
+    with wf_cmds_mut := Minimality for wf_cmds Sort Prop.
+
+  Definition Pcmd (L : list bytes) (prev : option bytes) (c : gcmd) (n : node) (L' : list bytes) : Prop :=
+    forall st, ready st -> p_loaded st = L -> prev_name (place_of st) = prev ->
+      exists st', steps T st (toks_cmd c) = Some st' /\ p_cstate st' = CNone /\ p_expected st' = None /\
+                  p_loaded st' = L' /\ p_brackets st' = p_brackets st /\
+                  place_of st' = emit1 (place_of st) n.
+
+  Definition Pcmds (L : list bytes) (prev : option bytes) (cs : list gcmd) (ns : list node) (L' : list bytes) : Prop :=
+    forall st, ready st -> p_loaded st = L -> prev_name (place_of st) = prev ->
+      exists st', steps T st (flat_map toks_cmd cs) = Some st' /\ p_cstate st' = CNone /\ p_expected st' = None /\
+                  p_loaded st' = L' /\ p_brackets st' = p_brackets st /\
+                  place_of st' = fold_left emit1 ns (place_of st).
+
+  (* the name of a command that is not a test, between commands *)
+  Lemma push_cmd : forall st name d,
+    ready st -> get_command_instance T (p_loaded st) name = inl d -> d_type d <> CTest ->
+    process T st (mk TIdentifier name) =
+    MTrue (with_cstate CArgs (with_stack (new_frame d (at_in (p_stack st)) :: p_stack st)
+             (if match d_type d with CControl => d_accept_children d && has_arguments d | _ => false end
+              then with_expected (Some [TIdentifier]) st else st))).
+  Proof.
+    intros st name d (Hc & He & Ho) Hg Hty.
+    unfold process, mk. cbn [t_kind]. rewrite He. unfold m_command. rewrite Hc. cbn [t_kind t_val]. rewrite Hg.
+    destruct (p_stack st) as [|o r0] eqn:Es.
+    - destruct (d_type d); try congruence; cbn [at_in]; [destruct (d_accept_children d && has_arguments d)|]; reflexivity.
+    - destruct Ho as (Ho1 & _). rewrite Ho1.
+      destruct (d_type d); try congruence; cbn [at_in]; [destruct (d_accept_children d && has_arguments d)|]; reflexivity.
+  Qed.
+
+  (* ---- `name args ;` *)
+  Lemma run_act : forall L prev name d args am em L',
+    get_command_instance T L name = inl d -> d_type d <> CTest -> d_accept_children d = false ->
+    wf_def d = true -> fixed_arity d = true -> Forall arg_ok args ->
+    legal d L args = LComplete am em ->
+    follows_name d prev = true -> cb_ok d am L L' ->
+    Pcmd L prev (GAct name args) (Node d am em [] []) L'.
+  Proof.
+    intros L prev name d args am em L' Hg Hty Hch Hwf Hfa Hall Hleg Hfol Hcb st Hr Hl Hprev.
+    pose proof Hr as (Hc & He & Ho).
+    assert (Htw : twf d = true) by (eapply gci_twf; eauto).
+    set (S0 := p_stack st) in *.
+    set (N := new_frame d (at_in S0)).
+    set (st1 := with_cstate CArgs (with_stack (N :: S0) st)).
+    assert (P0 : process T st (mk TIdentifier name) = MTrue st1).
+    { rewrite (push_cmd st name d Hr); [|rewrite Hl; exact Hg|exact Hty]. rewrite Hch. fold S0.
+      destruct (d_type d); reflexivity. }
+    assert (Hsh : Forall (fun x => arg_shape_ok x = true) args).
+    { apply Forall_forall. intros x Hx. rewrite Forall_forall in Hall. apply arg_ok_spec_shape. apply Hall. exact Hx. }
+    pose proof (argcheck_correct_gen d (at_in S0) L args Hwf Hfa Hsh) as C.
+    unfold corr_stmt in C. rewrite Hleg in C. destruct C as (fN & Hfeed & Hcomp & Ham & Hem). fold N in Hfeed.
+    assert (HfN : fi N) by (apply fi_new_frame; exact Htw).
+    assert (HntN : is_test N = false).
+    { unfold is_test, N. cbn. destruct (d_type d); congruence. }
+    (* the state before ';' *)
+    assert (Hmid : exists st2, steps T st1 (flat_map arg_toks args) = Some st2 /\
+                   p_stack st2 = fN :: S0 /\ p_cstate st2 = CArgs /\ passes (p_expected st2) TSemicolon /\
+                   same_env st st2 /\ f_def fN = d /\ f_attach fN = at_in S0 /\ f_children fN = []).
+    { destruct args as [|a0 args'].
+      - cbn in Hfeed. inversion Hfeed; subst fN. exists st1. cbn [flat_map steps].
+        split; [reflexivity|]. split; [reflexivity|]. split; [reflexivity|].
+        split; [unfold st1; pcbn; rewrite He; exact I|]. split; [unfold same_env, st1; pcbn; auto|]. auto.
+      - assert (Hci : cur_is st1 N S0) by (constructor; unfold st1; pcbn; auto).
+        assert (Hl1 : p_loaded st1 = L) by (unfold st1; pcbn; exact Hl).
+        rewrite <- Hl1 in Hfeed.
+        destruct (run_args_gen T (a0 :: args') st1 N S0 fN Hci Hall ltac:(discriminate) Hfeed)
+          as (stX & ts & PX & SX & CX & EX & VX & FX & DX & AX & KX).
+        assert (HtF : is_test fN = false) by (rewrite (is_test_def N fN DX); exact HntN).
+        assert (HchF : d_accept_children (f_def fN) = false) by (rewrite DX; exact Hch).
+        rewrite (cc_leaf stX fN S0 ts SX Hcomp HtF HchF) in PX. cbn [ostep] in PX.
+        eexists. split; [exact PX|].
+        assert (Hv1 : same_env st st1) by (unfold same_env, st1; pcbn; auto).
+        destruct ts; pcbn.
+        + split; [exact SX|]. split; [exact CX|]. split; [reflexivity|].
+          split; [apply (same_env_trans _ _ _ Hv1); unfold same_env; pcbn; exact VX|]. auto.
+        + split; [exact SX|]. split; [exact CX|]. split; [rewrite EX; exact I|].
+          split; [apply (same_env_trans _ _ _ Hv1 VX)|]. auto. }
+    destruct Hmid as (st2 & P2 & S2 & C2 & E2 & (B2 & L2 & H2 & R2) & D2 & A2 & K2).
+    assert (HtF : is_test fN = false) by (rewrite (is_test_def N fN D2); exact HntN).
+    assert (HchF : d_accept_children (f_def fN) = false) by (rewrite D2; exact Hch).
+    cbn [toks_cmd steps]. rewrite P0, steps_app, P2. cbn [steps].
+    rewrite (process_semicolon T st2 fN S0 S2 C2 E2 HtF HchF).
+    set (st3 := with_cstate CNone (with_expected None st2)).
+    (* complete_cb: only `require` changes anything *)
+    assert (Hcbk : complete_cb st3 = MTrue (with_loaded L' st3)).
+    { unfold complete_cb. replace (p_stack st3) with (fN :: S0) by (unfold st3; pcbn; auto). rewrite D2, Ham.
+      assert (Hl3 : p_loaded st3 = L) by (unfold st3; pcbn; congruence).
+      unfold cb_ok in Hcb. destruct (d_complete d).
+      - subst L'. rewrite <- Hl3, with_loaded_id. reflexivity.
+      - destruct (assoc_get capabilities_key am) as [[s|l|n0|ns0]|]; try contradiction; subst L'; rewrite ?Hl3; try reflexivity.
+        rewrite <- Hl3, with_loaded_id. reflexivity. }
+    rewrite Hcbk.
+    set (st4 := with_loaded L' st3).
+    assert (S4 : p_stack st4 = fN :: S0) by (unfold st4, st3; pcbn; exact S2).
+    assert (Hf4 : follows_name (f_def fN) (prev_name (S0, p_hash st4, p_result st4)) = true).
+    { rewrite D2. unfold st4, st3. pcbn. rewrite H2, R2. unfold place_of in Hprev. fold S0 in Hprev. rewrite Hprev. exact Hfol. }
+    destruct (up_close st4 fN S0 S4 Ho A2 Hf4) as (st' & U & U1 & U2 & U3 & U4 & U5).
+    rewrite U. exists st'. split; [reflexivity|].
+    split; [rewrite U1; reflexivity|]. split; [rewrite U2; reflexivity|]. split; [rewrite U4; reflexivity|].
+    split; [rewrite U3; unfold st4, st3; pcbn; exact B2|].
+    rewrite U5. unfold st4, st3, place_of. pcbn. fold S0. rewrite H2, R2. unfold frame_node. rewrite D2, Ham, Hem, K2. reflexivity.
+  Qed.
+
+  (* a block: '{' commands '}' after a complete control that takes children *)
+  Lemma run_block : forall L prev body ns L' st C S0,
+    Pcmds L None body ns L' ->
+    p_stack st = C :: S0 -> p_cstate st = CArgs -> passes (p_expected st) TLeftCBracket -> p_loaded st = L ->
+    owner_ok S0 -> prev_name (S0, p_hash st, p_result st) = prev ->
+    is_control C = true -> d_accept_children (f_def C) = true -> iscomplete C None = true ->
+    twf (f_def C) = true -> f_children C = [] -> f_attach C = at_in S0 ->
+    follows_name (f_def C) prev = true ->
+    exists st', steps T st (tk_lcb :: flat_map toks_cmd body ++ [tk_rcb]) = Some st' /\
+                p_cstate st' = CNone /\ p_expected st' = None /\ p_loaded st' = L' /\ p_brackets st' = p_brackets st /\
+                place_of st' = emit1 (S0, p_hash st, p_result st)
+                                     (Node (f_def C) (f_args C) (f_extra C) ns []).
+  Proof.
+    intros L prev body ns L' st C S0 IH Es Hc Hp Hl Ho Hprev Hctl Hch Hcomp Htw Hkids Hat Hfol.
+    assert (Hnd : d_non_deterministic_args (f_def C) = false) by (apply twf_children_det; assumption).
+    cbn [steps]. rewrite (process_lcb T st C S0 Es Hc Hp Hctl Hch Hcomp Hnd).
+    set (stD := with_cstate CNone (with_brackets (BRCBracket :: p_brackets st) (with_expected None st))).
+    assert (HntC : is_test C = false) by (unfold is_control, is_test in *; destruct (d_type (f_def C)); try discriminate; reflexivity).
+    assert (HrD : ready stD).
+    { unfold ready, stD. pcbn. rewrite Es. split; [reflexivity|]. split; [reflexivity|]. split; assumption. }
+    assert (HlD : p_loaded stD = L) by (unfold stD; pcbn; exact Hl).
+    assert (HpD : prev_name (place_of stD) = None).
+    { unfold place_of, stD. pcbn. rewrite Es. cbn. rewrite Hkids. reflexivity. }
+    destruct (IH stD HrD HlD HpD) as (stE & PE & CE & EE & LE & BE & PLE).
+    rewrite steps_app, PE. cbn [steps].
+    assert (HbE : p_brackets stE = BRCBracket :: p_brackets st) by (rewrite BE; unfold stD; pcbn; reflexivity).
+    rewrite (process_rcb T stE (p_brackets st) CE EE HbE).
+    unfold place_of in PLE. replace (p_stack stD) with (C :: S0) in PLE by (unfold stD; pcbn; auto).
+    rewrite fold_emit_nested in PLE. inversion PLE as [[SE HE RE]].
+    set (C' := add_children C ns) in *.
+    destruct (add_children_facts ns C) as (F1 & F2 & F3 & F4 & F5). fold C' in F1, F2, F3, F4, F5.
+    set (stF := with_brackets (p_brackets st) stE).
+    assert (SF : p_stack stF = C' :: S0) by (unfold stF; pcbn; exact SE).
+    assert (HfF : follows_name (f_def C') (prev_name (S0, p_hash stF, p_result stF)) = true).
+    { rewrite F1. unfold stF. pcbn. rewrite HE, RE. unfold stD. pcbn. rewrite Hprev. exact Hfol. }
+    assert (HaF : f_attach C' = at_in S0) by congruence.
+    destruct (up_close stF C' S0 SF Ho HaF HfF) as (st' & U & U1 & U2 & U3 & U4 & U5).
+    rewrite U. eexists. split; [reflexivity|]. pcbn.
+    split; [reflexivity|]. split; [rewrite U2; unfold stF; pcbn; exact EE|].
+    split; [rewrite U4; unfold stF; pcbn; exact LE|].
+    split; [rewrite U3; unfold stF; pcbn; reflexivity|].
+    unfold place_of in *. pcbn. rewrite U5. unfold stF. pcbn. rewrite HE, RE. unfold stD. pcbn.
+    unfold frame_node. rewrite F1, F2, F3, F4, Hkids. reflexivity.
+  Qed.
+
+  (* ---- `name test { commands }` *)
+  Lemma run_ctl : forall L prev name d a t nt body ns L',
+    get_command_instance T L name = inl d -> d_type d = CControl -> d_accept_children d = true ->
+    d_args d = [a] -> is_t1 a = true ->
+    follows_name d prev = true -> Pst T L t nt -> Pcmds L None body ns L' ->
+    Pcmd L prev (GCtl name t body) (Node d [(a_name a, VTest nt)] [] ns []) L'.
+  Proof.
+    intros L prev name d a t nt body ns L' Hg Hty Hch Ha Ht1 Hfol IHt IHb st Hr Hl Hprev.
+    pose proof Hr as (Hc & He & Ho).
+    assert (Htw : twf d = true) by (eapply gci_twf; eauto).
+    destruct (slot_facts d a Htw Ha (or_introl Ht1)) as (Hreq & Hnv & Hnoex & Hts & Hv1 & _).
+    set (S0 := p_stack st) in *.
+    set (C := new_frame d (at_in S0)).
+    set (stC := with_cstate CArgs (with_stack (C :: S0) (with_expected (Some [TIdentifier]) st))).
+    assert (P0 : process T st (mk TIdentifier name) = MTrue stC).
+    { rewrite (push_cmd st name d Hr); [|rewrite Hl; exact Hg|congruence]. rewrite Hty, Hch. unfold has_arguments.
+      rewrite Ha. reflexivity. }
+    destruct (cna_t1_new L d (at_in S0) a Htw Ha Ht1) as (C1 & EC & HcC1 & HdC1 & HaC1 & HargsC1 & HexC1 & HchC1 & HfC1).
+    fold C in EC.
+    assert (HfC : fi C) by (apply fi_new_frame; exact Htw).
+    assert (HlC : p_loaded stC = L) by (unfold stC; pcbn; exact Hl).
+    destruct (IHt stC C S0 C1 a eq_refl eq_refl ltac:(unfold stC; pcbn; reflexivity) HlC HfC EC)
+      as (F & stX & PX & CX & VX & UX & FX & AX & NX & TX & KX).
+    rewrite (t1_not_tl a Ht1) in AX.
+    set (C2 := attach_into F C1).
+    assert (HC2 : fi C2 /\ f_def C2 = d /\ f_attach C2 = at_in S0 /\ iscomplete C2 None = true /\
+                  f_args C2 = [(a_name a, VTest nt)] /\ f_extra C2 = [] /\ f_children C2 = []).
+    { destruct (fi_attach F C1 HfC1) as (B1 & B2 & B3 & B4 & B5 & B6).
+      { rewrite AX, HdC1. exact Hts. }
+      fold C2 in B1, B2, B3, B4, B5, B6.
+      split; [exact B1|]. split; [congruence|]. split; [congruence|].
+      split; [rewrite (iscomplete_ext C1 C2 None B2 B4 B5); exact HcC1|].
+      unfold C2, attach_into. rewrite AX. unfold set_arg. cbn. rewrite HargsC1. cbn. rewrite beq_refl'.
+      rewrite NX, HexC1, HchC1. auto. }
+    destruct HC2 as (G1 & G2 & G3 & G4 & G5 & G6 & G7).
+    assert (HctlC2 : is_control C2 = true) by (unfold is_control; rewrite G2, Hty; reflexivity).
+    assert (HntC2 : is_test C2 = false) by (unfold is_test; rewrite G2, Hty; reflexivity).
+    (* leaving the test leaves the control complete, waiting for its block *)
+    assert (Hleave : exists stB, leave (kind_of t) F (C1 :: S0) stX = MTrue stB /\ p_stack stB = C2 :: S0 /\
+                       p_cstate stB = CArgs /\ passes (p_expected stB) TLeftCBracket /\ same_env stX stB).
+    { unfold leave. destruct (kind_of t) eqn:Ek.
+      - cbn [cc_loop]. fold C2. rewrite HctlC2, G4. cbn [orb].
+        eexists. split; [reflexivity|]. pcbn. split; [reflexivity|]. split; [exact CX|]. split; [reflexivity|].
+        unfold same_env. pcbn. auto.
+      - fold C2. rewrite up_loop_eq, HntC2. cbn [andb].
+        eexists. split; [reflexivity|]. pcbn. split; [reflexivity|]. split; [exact CX|]. split; [exact I|].
+        unfold same_env. pcbn. auto. }
+    destruct Hleave as (stB & HLB & SB & CB & EB & VB).
+    assert (Hvv : same_env st stB).
+    { apply (same_env_trans st stC stB); [unfold same_env, stC; pcbn; auto|]. apply (same_env_trans _ _ _ VX VB). }
+    destruct Hvv as (V1 & V2 & V3 & V4).
+    assert (HpB : prev_name (S0, p_hash stB, p_result stB) = prev).
+    { rewrite V3, V4. exact Hprev. }
+    assert (HlB : p_loaded stB = L) by congruence.
+    destruct (run_block L prev body ns L' stB C2 S0 IHb SB CB EB HlB Ho HpB HctlC2 ltac:(rewrite G2; exact Hch) G4
+                        ltac:(rewrite G2; exact Htw) G7 G3 ltac:(rewrite G2; exact Hfol))
+      as (st' & PS & R1 & R2 & R3 & R4 & R5).
+    exists st'. cbn [toks_cmd steps]. rewrite P0, steps_app, PX, HLB. cbn [ostep].
+    split; [exact PS|]. split; [exact R1|]. split; [exact R2|]. split; [exact R3|]. split; [congruence|].
+    rewrite R5, V3, V4, G2, G5, G6. reflexivity.
+  Qed.
+
+  (* ---- `name { commands }` *)
+  Lemma run_else : forall L prev name d body ns L',
+    get_command_instance T L name = inl d -> d_type d = CControl -> d_accept_children d = true ->
+    d_args d = [] ->
+    follows_name d prev = true -> Pcmds L None body ns L' ->
+    Pcmd L prev (GElse name body) (Node d [] [] ns []) L'.
+  Proof.
+    intros L prev name d body ns L' Hg Hty Hch Ha Hfol IHb st Hr Hl Hprev.
+    pose proof Hr as (Hc & He & Ho).
+    assert (Htw : twf d = true) by (eapply gci_twf; eauto).
+    set (S0 := p_stack st) in *.
+    set (C := new_frame d (at_in S0)).
+    set (stC := with_cstate CArgs (with_stack (C :: S0) st)).
+    assert (P0 : process T st (mk TIdentifier name) = MTrue stC).
+    { rewrite (push_cmd st name d Hr); [|rewrite Hl; exact Hg|congruence]. rewrite Hty, Hch. unfold has_arguments.
+      rewrite Ha. reflexivity. }
+    assert (Hnts : has_test_slot d = false) by (unfold has_test_slot; rewrite Ha; reflexivity).
+    assert (Hcomp : iscomplete C None = true).
+    { unfold iscomplete, C. cbn. rewrite (twf_no_test_slot d Htw Hnts). unfold required_args. rewrite Ha. reflexivity. }
+    assert (Hctl : is_control C = true) by (unfold is_control, C; cbn; rewrite Hty; reflexivity).
+    destruct (run_block L prev body ns L' stC C S0 IHb eq_refl eq_refl ltac:(unfold stC; pcbn; rewrite He; exact I)
+                        ltac:(unfold stC; pcbn; exact Hl) Ho ltac:(unfold stC; pcbn; exact Hprev) Hctl Hch Hcomp Htw
+                        eq_refl eq_refl Hfol)
+      as (st' & PS & R1 & R2 & R3 & R4 & R5).
+    exists st'. cbn [toks_cmd steps]. rewrite P0.
+    split; [exact PS|]. split; [exact R1|]. split; [exact R2|]. split; [exact R3|]. split; [exact R4|].
+    rewrite R5. reflexivity.
+  Qed.
+
+  (* ---- every well-formed command sequence *)
+  Theorem run_cmds : forall L prev cs ns L', wf_cmds L prev cs ns L' -> Pcmds L prev cs ns L'.
+  Proof.
+    apply (wf_cmds_mut Pcmd Pcmds).
+    - intros. eapply run_act; eauto.
+    - intros L prev name d a t nt body ns L' Hg Hty Hch Ha Ht1 Hfol Hwt _ IHb.
+      apply run_ctl; auto. apply run_test; auto.
+    - intros L prev name d body ns L' Hg Hty Hch Ha Hfol _ IHb. apply run_else; auto.
+    - intros L prev st Hr Hl Hp. exists st. destruct Hr as (A & B & _). cbn [flat_map steps fold_left]. repeat (split; [solve [auto]|]). reflexivity.
+    - intros L prev c n L1 cs ns L2 _ IHc _ IHcs st Hr Hl Hp.
+      destruct (IHc st Hr Hl Hp) as (st1 & P1 & C1 & E1 & L1' & B1 & PL1).
+      destruct (emit1_facts (place_of st) n (proj2 (proj2 Hr))) as (O1 & N1).
+      rewrite <- PL1 in O1, N1.
+      assert (Hr1 : ready st1) by (split; [exact C1|]; split; [exact E1|exact O1]).
+      destruct (IHcs st1 Hr1 L1' N1) as (st2 & P2 & C2 & E2 & L2' & B2 & PL2).
+      exists st2. cbn [flat_map]. rewrite steps_app, P1.
+      split; [exact P2|]. split; [exact C2|]. split; [exact E2|]. split; [exact L2'|]. split; [congruence|].
+      cbn [fold_left]. rewrite <- PL1. exact PL2.
+  Qed.
+End Cmds.
+
+(* ---- whole scripts *)
+
+Lemma wf_cmds_comments : forall T L prev cs ns L',
+  wf_cmds T L prev cs ns L' -> Forall (fun n => node_comments n = []) ns.
+Proof.
+  intros T L prev cs ns L' H. induction H as [|L prev c n L1 cs ns L2 Hc Hcs IH]; constructor; [|exact IH].
+  inversion Hc; reflexivity.
+Qed.
+
+Lemma fold_emit_top : forall ns res,
+  Forall (fun n => node_comments n = []) ns -> fold_left emit1 ns ([], [], res) = ([], [], res ++ ns).
+Proof.
+  induction ns as [|n ns IH]; intros res H; cbn [fold_left emit1]; [rewrite app_nil_r; reflexivity|].
+  inversion H as [|n' ns' Hn Hns]; subst.
+  assert (Hw : with_comments n [] = n) by (destruct n; cbn in *; subst; reflexivity).
+  rewrite Hw, (IH _ Hns), <- app_assoc. reflexivity.
+Qed.
+
+(* C01 (completeness) + C03 (faithfulness), whole scripts: the token sequence of any well-formed sequence of
+   commands -- actions with their arguments, `require` extending the set of loaded extensions for what
+   follows, controls with tests (simple tests, one-test tests, test lists, nested to any depth) and blocks
+   nested to any depth, elsif / else after the commands they must follow -- is accepted, and the resulting
+   tree is exactly the one the grammar derivation describes *)
+Theorem script_complete : forall T cs ns L',
+  twf_tables T = true -> wf_cmds T [] None cs ns L' ->
+  exists st', steps T p_init (flat_map toks_cmd cs) = Some st' /\
+              p_stack st' = [] /\ p_expected st' = None /\ p_brackets st' = [] /\ p_result st' = ns /\
+              p_loaded st' = L'.
+Proof.
+  intros T cs ns L' HT H.
+  destruct (run_cmds T HT [] None cs ns L' H p_init) as (st' & P & C & E & Ld & B & PL).
+  - unfold ready, p_init. cbn. auto.
+  - reflexivity.
+  - reflexivity.
+  - exists st'. unfold place_of in PL. cbn [p_init p_stack p_hash p_result] in PL.
+    rewrite (fold_emit_top ns [] (wf_cmds_comments _ _ _ _ _ _ H)) in PL. injection PL as S1 H1 R1.
+    split; [exact P|]. split; [exact S1|]. split; [exact E|]. split; [exact B|]. split; [exact R1|exact Ld].
+Qed.
+
+(* a text that lexes (with any layout) to those tokens parses to exactly that tree *)
+Theorem parse_script : forall T text cs ns L',
+  twf_tables T = true ->
+  snd (lex text) = None ->
+  map strip_pos (fst (lex text)) = flat_map toks_cmd cs ->
+  wf_cmds T [] None cs ns L' ->
+  parse T text = Accept ns.
+Proof.
+  intros T text cs ns L' HT Herr Htoks H.
+  destruct (script_complete T cs ns L' HT H) as (st' & Hs & S1 & E1 & B1 & R1 & _).
+  rewrite parse_run_tokens, Herr. rewrite <- Htoks in Hs.
+  destruct (steps_run_tokens T (fst (lex text)) p_init _ (2 * length text + 2) (length text) 0 Hs) as (ll & ->).
+  { pose proof (token_count text). lia. }
+  unfold finish. rewrite B1, E1, S1, R1. reflexivity.
+Qed.
+
+Print Assumptions run_args_gen.
+Print Assumptions run_test.
+Print Assumptions run_cmds.
+Print Assumptions parse_script.
